@@ -539,6 +539,7 @@ CONSTANTS
   Records = {}
   MaxRecs = 100000
   MaxRejects = 100000
+  SkipClauses = %s
 INVARIANT Accepted
 CHECK_DEADLOCK FALSE
 """
@@ -687,9 +688,14 @@ def check(run, props):
                 t = json.loads(line)
                 traces[t['tid']] = t
     # writer failures on random valid input are violations by themselves
-    verdicts = validate_batches('Trace_GroFile', TRACE_CFG, parts, scratch, timeout=3000, run=run)
     c14_clauses = {'crash_point_rejected', 'dropped_writer_rejected', 'accepted_after_box_line', 'failed_close_rejected',
                    'truncation_before_box_rejected', 'accepted_truncation_exact'}
+    c13_clauses = {'box_in_bytes', 'close_outcome', 'count_field', 'file_is_valid_gro', 'final_matches_history', 'position_format',
+                   'reader_accepts', 'reader_box', 'reader_count', 'reader_format', 'reader_records', 'reader_title',
+                   'records_round_trip_in_bytes', 'setter_accepts_valid_value', 'title_in_bytes', 'uniform_line_length', 'write_outcome'}
+    skip = c13_clauses if props == {'C14'} else (c14_clauses if props == {'C13'} else set())
+    verdicts = validate_batches('Trace_GroFile', TRACE_CFG % ('{' + ', '.join('"%s"' % c for c in sorted(skip)) + '}'), parts, scratch,
+                                timeout=3000, run=run)
     for tid, tr in traces.items():
         v = verdicts.get(tid)
         if tr['kind'] == 'adm' and tr['ev'][0]['op'] == 'writer_failed':
